@@ -155,7 +155,12 @@ def run(chk, facts, tier):
             if ok and not any(l.l < tog[0].l and l.l < push[0].l and l.parent is not None and l.parent.parent is tog[0].parent.parent or l.l < tog[0].l and l.parent.parent is fn.body for l in locks):
                 ok = False
                 why = 'sequence number toggle and push_front are not inside a Radio::lock_guard scope (the radio interrupt reads both)'
-        chk.instance('commit-co-update', fn, 'sequence_number_ toggle + push_front', ok, '' if ok else why, key='commit')
+            # the value the SN bit of this PDU is taken from is read under the same lock as the toggle: the interrupt (next_transmit: empty PDU) uses and toggles it too
+            reads = [n for n in fn.body.walk() if n.k in ('MemberExpr', 'CXXDependentScopeMemberExpr') and n.n == SN]
+            if ok and locks and not all(any(l.l < r.l and l.parent.parent is fn.body for l in locks) for r in reads):
+                ok = False
+                why = 'sequence_number_ is read (to set the SN bit of the PDU) before the radio lock is taken: an interrupt that sends the empty PDU in between uses the same sequence number, and one of the two PDUs is taken for a retransmission and dropped'
+        chk.instance('commit-co-update', fn, 'sequence_number_ read + toggle + push_front under one lock', ok, '' if ok else why, key='commit')
 
     for fn in facts.fns(BUF + 'next_transmit'):
         for i, r in enumerate(fn.returns()):
